@@ -52,6 +52,7 @@ CONSTANTS DirectForks,      \* fork names for which the precompile *function* is
           ModexpFullForks,  \* forks that get the full modexp length/padding family (others: a reduced one)
           FullCuts,         \* BOOLEAN: all truncation points of the modexp family, or the main ones
           WideGas,          \* BOOLEAN: modexp family gas limits {0, c-1, c, c+1, Big} instead of {c-1, c}
+          RichVals,         \* BOOLEAN: more operand values in the modexp family
           MsmKs             \* numbers of pairs tried for the BLS12-381 MSM / pairing gas formulas
 
 VARIABLES sel, last, hist
@@ -496,10 +497,11 @@ EcInputs ==
 HashInputs == { Ramp(n) : n \in Lens } \cup { Rep(0, 1000) }
 
 ModexpLens == {0, 1, 2, 32, 33}
-BVals(n) == IF n = 0 THEN {0} ELSE IF n = 1 THEN {3, 255} ELSE {3, 1000}
-EVals(n) == IF n = 0 THEN {0} ELSE IF n = 1 THEN {0, 1, 5} ELSE IF n = 2 THEN {1, 1000}
-            ELSE IF n = 32 THEN {0, 2, 1000} ELSE {1, 5, 1000}     \* 33 bytes: leading 32 bytes 0, 0, 3
-MVals(n) == IF n = 0 THEN {0} ELSE IF n = 1 THEN {0, 1, 7} ELSE {0, 7, 1000}
+More(S) == IF RichVals THEN S ELSE {}
+BVals(n) == IF n = 0 THEN {0} ELSE IF n = 1 THEN {3, 255} \cup More({0}) ELSE {3, 1000} \cup More({0})
+EVals(n) == IF n = 0 THEN {0} ELSE IF n = 1 THEN {0, 1, 5} \cup More({255}) ELSE IF n = 2 THEN {1, 1000}
+            ELSE IF n = 32 THEN {0, 2, 1000} \cup More({1}) ELSE {1, 5, 1000}     \* 33 bytes: leading 32 bytes 0, 0, 3
+MVals(n) == IF n = 0 THEN {0} ELSE IF n = 1 THEN {0, 1, 7} \cup More({255}) ELSE {0, 7, 1000}
 Header(bl, el, ml) == Enc(bl, 32) \o Enc(el, 32) \o Enc(ml, 32)
 MxFull(bl, el, ml, B, E, M) == Header(bl, el, ml) \o Enc(B, bl) \o Enc(E, el) \o Enc(M, ml)
 Shape(full, c) == IF c <= Len(full) THEN SubSeq(full, 1, c) ELSE full \o FF(c - Len(full))
